@@ -557,7 +557,9 @@ func (g *nilGen) stmt(depth int) {
 				if r.Chance(70) {
 					arm("case *int", gTypeIdx("*int"))
 				}
+				nilArm := false
 				if r.Chance(40) {
+					nilArm = true
 					arm("case nil", -1)
 				}
 				if r.Chance(40) {
@@ -565,6 +567,14 @@ func (g *nilGen) stmt(depth int) {
 				}
 				if r.Chance(30) {
 					arm("case []int", gTypeIdx("[]int"))
+				}
+				if r.Chance(35) {
+					// a clause with several types binds the interface value itself
+					multi := []string{"case *" + g.q("T") + ", *" + g.q("MyErr"), "case map[int]*int, chan *int", "case func() *int, *[4]int, nil"}
+					if nilArm {
+						multi[2] = "case func() *int, *[4]int"
+					}
+					arm(multi[r.Intn(3)], v.t)
 				}
 				if r.Chance(70) || !emitted {
 					arm("default", v.t)
@@ -885,6 +895,8 @@ func GFirstNonNil[T ~*int](a, b T) T {
 
 type NamedPtr *int
 
+func GConvU[T ~uintptr](x T) unsafe.Pointer { return unsafe.Pointer(x) }
+
 // type parameters without type terms: comparable, any, an interface with methods, both
 func GFirst[T comparable](xs []T) T { return xs[0] }
 
@@ -950,6 +962,8 @@ func GenNilModule(r *Rand, dir string, na, nb int) []GFunc {
 		{Params: []int{ti("error")}, Results: []int{ti("error")}, Fixed: "(n int, p0 error) error { return GFirstM([]error{p0}) }"},
 		{Params: []int{ti("any")}, Results: []int{ti("any")}, Fixed: "(n int, p0 any) any { return GLast([]any{p0}) }"},
 		{Params: []int{ti("error")}, Results: []int{ti("error")}, Fixed: "(n int, p0 error) error { return GSecond[error](nil, p0) }"},
+		{Params: []int{ti("uintptr")}, Results: []int{ti("unsafe.Pointer")}, Fixed: "(n int, p0 uintptr) unsafe.Pointer { return GConvU(p0) }"},
+		{Params: []int{ti("uintptr")}, Results: []int{ti("any")}, Fixed: "(n int, p0 uintptr) any { return GConvU(p0) }"},
 	} {
 		w.Pkg, w.Name = "a", fmt.Sprintf("GW%d", k)
 		g.funcs = append(g.funcs, w)
@@ -1101,6 +1115,9 @@ func runGenerics() {
 	for _, p := range []*int{nil, new(int)} {
 		try(func() { r := a.GFirst([]*int{p}); record("a.GFirst", 0, r == nil, false, r) })
 		try(func() { r := a.GLast([]*int{p}); record("a.GLast", 0, r == nil, false, r) })
+	}
+	for _, u := range []uintptr{0, uintptr(unsafe.Pointer(new(int)))} {
+		try(func() { r := a.GConvU(u); record("a.GConvU", 0, r == nil, false, r) })
 	}
 	try(func() { r := a.GFirst([]int{1}); _ = r })
 	try(func() { r := a.GZero[*int](); record("a.GZero", 0, r == nil, false, r) })
